@@ -31,6 +31,11 @@ type Exec struct {
 	opts      Options
 	pureDepth int
 	slotTypes map[string]types.Type
+	// type-invariant facts about values loaded while evaluating spec expressions
+	// (slice lengths are non-negative, references are allocated, ...); flushed into
+	// the path condition by the next assert/assume
+	pending   []string
+	qsyms     []string // symbols of quantifier variables currently in scope
 }
 
 type Options struct {
@@ -113,10 +118,40 @@ func (x *Exec) oblName(kind string) string {
 }
 
 // assert adds an obligation and then assumes the goal (Boogie style).
+func (f *frame) flush() {
+	x := f.x
+	if len(x.pending) > 0 {
+		p := x.pending
+		x.pending = nil
+		f.cur = x.vc.Def("pc", "Bool", And(append([]string{f.cur}, p...)...))
+	}
+}
+
+func (x *Exec) takePending() string {
+	p := x.pending
+	x.pending = nil
+	return And(p...)
+}
+
+// noteLoaded records the type invariants of a value loaded from state st by a spec expression.
+func (x *Exec) noteLoaded(st *State, v Val) {
+	a := x.heap.valAssume(st, v)
+	if a == "true" {
+		return
+	}
+	for _, q := range x.qsyms {
+		if strings.Contains(a, q) {
+			return
+		}
+	}
+	x.pending = append(x.pending, a)
+}
+
 func (f *frame) assert(kind, desc, goal string, cl *Clause, pos string) {
 	if f.dead {
 		return
 	}
+	f.flush()
 	x := f.x
 	o := &Obligation{Name: x.oblName(kind), Kind: strings.SplitN(kind, ".", 2)[0], Desc: desc, Hyp: f.cur, Goal: goal, Pos: pos, Abstr: x.abstracted, Bounded: x.bounded}
 	if x.top != nil {
@@ -135,6 +170,7 @@ func (f *frame) assert(kind, desc, goal string, cl *Clause, pos string) {
 }
 
 func (f *frame) assume(t string) {
+	f.flush()
 	if t == "true" {
 		return
 	}
@@ -546,8 +582,18 @@ func (f *frame) loopBackEdge(li *loopInfo, from *ssa.BasicBlock, cond string) {
 	env := f.invEnv(li, over)
 	for i, inv := range li.spec.Invariants {
 		c := inv
-		t := x.evalClause(env, &c)
-		f.assert(fmt.Sprintf("inv.step.loop%d.%s", li.ordinal, clauseName(&c, i)), "loop invariant preserved: "+c.Text, t, &c, pos)
+		parts := SplitConj(c.Expr)
+		for j, pe := range parts {
+			pc := c
+			pc.Expr = pe
+			name := fmt.Sprintf("inv.step.loop%d.%s", li.ordinal, clauseName(&c, i))
+			if len(parts) > 1 {
+				name = fmt.Sprintf("%s.%d", name, j+1)
+				pc.Text = SpecString(pe)
+			}
+			t := x.evalClause(env, &pc)
+			f.assertNoAssume(name, "loop invariant preserved: "+pc.Text, t, &pc, pos)
+		}
 	}
 	if af := x.autoFrame(f.st, li.modKeys); af != "true" {
 		f.assert(fmt.Sprintf("frame.loop%d", li.ordinal), "writes in the loop stay within the function's modifies clause", af, nil, pos)
